@@ -311,20 +311,55 @@ func (c *Cond) Broadcast() {
 // Waiters reports how many tasks are parked in Wait (for lost-wake-up oracles).
 func (c *Cond) Waiters() int { return len(c.waiters) }
 
-// Once is sync.Once on top of the simulated Mutex, so that a task parked
-// inside f does not leave another task blocked on a real (non-durable) lock.
+// Once is sync.Once for simulated code. Uncontended use produces no sim op at
+// all (process-wide lazy initialisers must not make the first run of a process
+// look different from later ones); a task that finds f running parks until it
+// has completed instead of blocking on a real, non-durable lock.
 type Once struct {
-	done uint32
-	m    Mutex
+	done    uint32
+	real    sync.Mutex
+	gen     uint64
+	running bool
 }
 
 func (o *Once) Do(f func()) {
-	if atomic.LoadUint32(&o.done) == 0 {
-		o.m.Lock()
-		defer o.m.Unlock()
+	if atomic.LoadUint32(&o.done) == 1 {
+		return
+	}
+	t := simrt.CurrentOrLazy()
+	if t == nil || t.Killed() {
+		o.real.Lock()
+		defer o.real.Unlock()
 		if o.done == 0 {
 			defer atomic.StoreUint32(&o.done, 1)
 			f()
 		}
+		return
+	}
+	s := t.Sim()
+	for {
+		s.BkLock()
+		if o.gen != s.Gen() {
+			o.gen = s.Gen()
+			o.running = false
+		}
+		if atomic.LoadUint32(&o.done) == 1 {
+			s.BkUnlock()
+			return
+		}
+		if !o.running {
+			o.running = true
+			s.BkUnlock()
+			defer func() {
+				s.BkLock()
+				o.running = false
+				s.BkUnlock()
+				atomic.StoreUint32(&o.done, 1)
+			}()
+			f()
+			return
+		}
+		s.BkUnlock()
+		t.Park(simrt.OpCustom, 0, func() bool { return atomic.LoadUint32(&o.done) == 1 || !o.running }, nil)
 	}
 }
